@@ -13,7 +13,7 @@ var Hostile = []string{
 	"\xff", "\xfe\xfd", "\xc3", "\xe2\x82", "\xf0\x9f\x98", "\xc0\xaf", "\xed\xa0\x80",
 	"\u2028", "\u2029", "\u00a0", "\u200b", "\ufeff", "\ufffd", "\u00e9", "\u65e5\u672c\u8a9e", "\U0001f600", "\U0010ffff", "\u0085",
 	`","level":"fatal`, `" forged="1`, "}\n{\"time\":\"x\",\"level\":\"panic\",\"msg\":\"forged\"}", `\u0000`, `\x41`, `%s%d%!`, `{{`, `}}`,
-	" ", "  ", "=", `="`, " k=v ", "a=b", "<b>", "</b>", "&amp;", "<", ">", "&", "'", "`", "[", "]", ",", "{", "}", ":", "null", "true", "<nil>",
+	" ", "  ", "=", `="`, " k=v ", "a=b", "<b>", "</b>", "&amp;", "<", ">", "&", "&#10;", "&#xA;", "&NewLine;", "&#13;", "&#27;[31m", "&lt;", "&quot;", "&#0;", "<br>", "<i>x", "</u>", "'", "`", "[", "]", ",", "{", "}", ":", "null", "true", "<nil>",
 }
 
 var Plain = []string{"a", "b", "x1", "hello", "world", "user", "id", "42", "Z", "-", "_", ".", "/", "path/to", "foo-bar", "v", "q"}
@@ -112,6 +112,10 @@ func Filter(s string, o StrOpt) string {
 // LogfmtKey returns a legal logfmt key (non-empty, no space, '=', quote, control
 // character, and — because group members are flattened with dots — no dot).
 func (r *R) LogfmtKey(uniq string) string {
+	if r.P(6) {
+		// long keys: total lengths around the 64-byte mark (stack buffers, dotted group prefixes)
+		return uniq + strings.Repeat("k", r.Range(20, 70))
+	}
 	alphabet := "abcdefghijklmnopqrstuvwxyzABCDEFGHIJKLMNOPQRSTUVWXYZ0123456789_-/:@#$%+*^!?|;,()[]{}<>&'`"
 	n := r.Range(0, 5)
 	var sb strings.Builder
